@@ -24,13 +24,12 @@ pub fn items_tokens(text: &str) -> (String, usize, bool) {
         match parser.next() {
             None => break,
             Some(Ok((ev, span))) => {
-                toks.push(format!("@{} {}", span_code(&span), raw_tokens(&ev)));
+                toks.push(format!("@{} {}", crate::yamlgen::span_code_in(&span, text), raw_tokens(&ev)));
                 n += 1;
             }
             Some(Err(e)) => {
-                let m = e.marker();
-                let code = ((m.line() as u64) << 20) | (m.col() as u64 + 1);
                 let ua = e.info().to_ascii_lowercase().contains("unknown anchor");
+                let code = crate::yamlgen::scan_error_code_in(e, text);
                 toks.push(format!("!{}@{}", b(ua), code));
                 errs += 1;
                 if errs >= 3 { break; }
